@@ -1,10 +1,10 @@
 (* Lemmas about Model/Factorized.v (part 18: the einsum tenalg backend on operands that do NOT fit.
-   tucker_to_tensor_einsum_b models what the single np.einsum call of the einsum multi_mode_dot really does (size-1 dimensions are
-   broadcast, core modes beyond the last factor are kept); it extends the exact-shape model tucker_to_tensor_einsum, so the
-   theorems about the latter (= core route on well-formed input) carry over.  The TT-matrix einsum model (ein_chain) has had the
-   broadcasting / summed-boundary semantics from the start.
-   Witnesses of the genuine defect: structurally invalid factor sets that the validators reject and the core routes refuse are
-   silently reconstructed by the einsum routes. *)
+   tucker_to_tensor_einsum_b models the einsum multi_mode_dot on ANY 2-D operands (exact contracted dimensions since repo 8b25fc6,
+   core modes beyond the last factor kept, a superfluous skipped factor ignored); it extends the exact-shape model
+   tucker_to_tensor_einsum, so the theorems about the latter (= core route on well-formed input) carry over.
+   The former witnesses of the defect repaired by 8b25fc6 (factor sets the validators reject were silently reconstructed: np.einsum's
+   broadcasting / summed boundary ranks, rank products that happen to fit in tt_to_tensor / tr_to_tensor) are kept as before_8b25fc6
+   examples: the validating functions now refuse them, the raw chains (the code before the repair) still show the old behaviour. *)
 From Coq Require Import List Arith ZArith Lia Bool Ring.
 From TLV Require Import Base.Shape Base.PyList Base.Tensor Base.BigSum Base.Ops Model.Base Model.Factorized
   Proofs.BaseProofs Proofs.BaseProofs4 Proofs.FactorizedProofs Proofs.FactorizedProofs5 Proofs.FactorizedProofs16.
@@ -97,66 +97,58 @@ Proof.
 Qed.
 End P.
 
-(* ---------- the genuine defect: silent reconstruction of structurally invalid factor sets under the einsum backend ---------- *)
-(* Tucker: a core mode of size 1 against a factor with 3 columns (validator: Err; core route: Err; einsum: broadcast) and a factor
-   with ONE column against a core mode of size 3 *)
+(* ---------- former witnesses (before repo 8b25fc6 these sets were reconstructed silently) ---------- *)
 Definition bc_core1 : tensor Z := mk [1; 2] [1; 2]%Z.
 Definition bc_fs1 : list (tensor Z) := [mk [2; 3] [1; 2; 3; 4; 5; 6]%Z; mk [2; 2] [1; 2; 3; 4]%Z].
 Definition bc_core2 : tensor Z := mk [3; 2] [1; 2; 3; 4; 5; 6]%Z.
 Definition bc_fs2 : list (tensor Z) := [mk [2; 1] [1; 2]%Z; mk [2; 2] [1; 2; 3; 4]%Z].
-Theorem tucker_einsum_broadcast_refuted :
+(* Tucker, einsum backend: a size-1 core mode against a 3-column factor, a one-column factor against a core mode of size 3 *)
+Lemma before_8b25fc6_tucker_einsum :
   validate_tucker bc_core1 bc_fs1 = Err /\ tucker_to_tensor Zops bc_core1 bc_fs1 None false = Err /\
-  tucker_to_tensor_einsum_b Zops bc_core1 bc_fs1 None false = Ok (mk [2; 2] [30; 66; 75; 165]%Z) /\
+  tucker_to_tensor_einsum_b Zops bc_core1 bc_fs1 None false = Err /\
   validate_tucker bc_core2 bc_fs2 = Err /\ tucker_to_tensor Zops bc_core2 bc_fs2 None false = Err /\
-  tucker_to_tensor_einsum_b Zops bc_core2 bc_fs2 None false = Ok (mk [2; 2] [33; 75; 66; 150]%Z).
+  tucker_to_tensor_einsum_b Zops bc_core2 bc_fs2 None false = Err.
 Proof. repeat split; vm_compute; reflexivity. Qed.
 
-(* TT-matrix: first boundary rank 2 (summed over), and an inner rank 3 against a next core of rank 1 (broadcast) *)
+(* TT-matrix, einsum backend: first boundary rank 2 (the raw einsum sums over it), inner rank 3 against 1 (the raw einsum broadcasts) *)
 Definition bc_ttm1 : list (tensor Z) := [mk [2; 2; 1; 2] (repeat 1%Z 8); mk [2; 1; 2; 1] (repeat 1%Z 4)].
 Definition bc_ttm2 : list (tensor Z) := [mk [1; 2; 1; 3] (repeat 1%Z 6); mk [1; 1; 2; 1] (repeat 1%Z 2)].
-Theorem ttm_einsum_open_boundary_refuted :
-  validate_ttm bc_ttm1 = Err /\ ttm_to_tensor Zops bc_ttm1 = Err /\
-  ttm_to_tensor_einsum Zops bc_ttm1 = Ok (mk [2; 1; 1; 2] [4; 4; 4; 4]%Z) /\
-  validate_ttm bc_ttm2 = Err /\ ttm_to_tensor Zops bc_ttm2 = Err /\
-  ttm_to_tensor_einsum Zops bc_ttm2 = Ok (mk [2; 1; 1; 2] [3; 3; 3; 3]%Z).
+Lemma before_8b25fc6_ttm_einsum :
+  validate_ttm bc_ttm1 = Err /\ ttm_to_tensor Zops bc_ttm1 = Err /\ ttm_to_tensor_einsum Zops bc_ttm1 = Err /\
+  ttm_to_tensor_einsum_raw Zops bc_ttm1 = Ok (mk [2; 1; 1; 2] [4; 4; 4; 4]%Z) /\
+  validate_ttm bc_ttm2 = Err /\ ttm_to_tensor Zops bc_ttm2 = Err /\ ttm_to_tensor_einsum Zops bc_ttm2 = Err /\
+  ttm_to_tensor_einsum_raw Zops bc_ttm2 = Ok (mk [2; 1; 1; 2] [3; 3; 3; 3]%Z).
 Proof. repeat split; vm_compute; reflexivity. Qed.
 
-(* tensor train, both backends (tt_to_tensor does not call a tenalg function): a first boundary rank 2 whose product with the next rank
-   is the left rank of the second core passes the reshape / dot chain *)
+(* tensor train: first boundary rank 2 whose product with the next rank is the left rank of the second core *)
 Definition bc_tt : list (tensor Z) := [mk [2; 3; 1] [1; 2; 3; 4; 5; 6]%Z; mk [2; 4; 1] [1; -1; 2; 0; 3; 1; -2; 2]%Z].
-Theorem tt_first_boundary_refuted :
-  validate_tt bc_tt = Err /\ exists t, tt_to_tensor Zops bc_tt = Ok t /\ shape t = [3; 4].
-Proof. split; [reflexivity|]. eexists. split; [vm_compute; reflexivity | reflexivity]. Qed.
+Lemma before_8b25fc6_tt :
+  validate_tt bc_tt = Err /\ tt_to_tensor Zops bc_tt = Err /\ exists t, tt_to_tensor_raw Zops bc_tt = Ok t /\ shape t = [3; 4].
+Proof. split; [reflexivity|]. split; [reflexivity|]. eexists. split; [vm_compute; reflexivity | reflexivity]. Qed.
 
-(* tensor ring, both backends: two cores of shapes (r0, n0, r1) and (r0, n1, r1) with r0 <> r1 -- the last one with its ranks swapped -- are not a
-   ring (the validator rejects it) but passes tr_to_tensor's reshape / moveaxis / dot closure *)
+(* tensor ring: two cores (r0, n0, r1), (r0, n1, r1) with r0 <> r1 -- the last one with its ranks swapped *)
 Definition bc_tr : list (tensor Z) := [mk [1; 2; 2] [1; 2; 3; 4]%Z; mk [1; 3; 2] [1; 0; 2; -1; 1; 1]%Z].
-Theorem tr_swapped_last_refuted :
-  validate_tr bc_tr = Err /\ exists t, tr_to_tensor Zops bc_tr = Ok t /\ shape t = [2; 3].
-Proof. split; [reflexivity|]. eexists. split; [vm_compute; reflexivity | reflexivity]. Qed.
+Lemma before_8b25fc6_tr :
+  validate_tr bc_tr = Err /\ tr_to_tensor Zops bc_tr = Err /\ exists t, tr_to_tensor_raw Zops bc_tr = Ok t /\ shape t = [2; 3].
+Proof. split; [reflexivity|]. split; [reflexivity|]. eexists. split; [vm_compute; reflexivity | reflexivity]. Qed.
 
-(* the restricted statement that does hold: operands with a genuine (non size-1) mismatch are refused by the einsum routes too *)
+(* ---------- any mismatch is refused by the einsum routes ---------- *)
 Section R.
 Variable F : Type.
 Variable Op : fops F.
 Notation tensor := (tensor F).
-Theorem tucker_einsum_mismatch_rejected_partial (core : tensor) (M : tensor) (Ms : list tensor) c cs' :
-  shape core = c :: cs' -> ndim M = 2 -> ncols M <> c -> ncols M <> 1 -> c <> 1 ->
-  tucker_to_tensor_einsum_b Op core (M :: Ms) None false = Err.
+Theorem tucker_einsum_mismatch_rejected (core : tensor) (M : tensor) (Ms : list tensor) c cs' :
+  shape core = c :: cs' -> ncols M <> c -> tucker_to_tensor_einsum_b Op core (M :: Ms) None false = Err.
 Proof.
-  intros Hs H2 H1 H3 H4. unfold tucker_to_tensor_einsum_b. cbn [andb]. rewrite Hs. cbn [ein_tk_dims_b ein_skipped].
-  rewrite H2. cbn [Nat.eqb andb].
-  destruct (Nat.eqb_spec (ncols M) c); [contradiction|]. destruct (Nat.eqb_spec (ncols M) 1); [contradiction|].
-  destruct (Nat.eqb_spec c 1); [contradiction|]. reflexivity.
+  intros Hs H1. unfold tucker_to_tensor_einsum_b. cbn [andb]. rewrite Hs. cbn [ein_tk_dims_b ein_skipped].
+  destruct (Nat.eqb_spec (ncols M) c); [contradiction|]. now rewrite andb_false_r.
 Qed.
-Theorem ttm_einsum_mismatch_rejected_partial (G1 G2 : tensor) (rest : list tensor) a b c e a' b' c' e' :
-  shape G1 = [a; b; c; e] -> shape G2 = [a'; b'; c'; e'] -> e <> a' -> e <> 1 -> a' <> 1 ->
-  ttm_to_tensor_einsum Op (G1 :: G2 :: rest) = Err.
+Theorem ttm_einsum_mismatch_rejected (G1 G2 : tensor) (rest : list tensor) a b c e a' b' c' e' :
+  shape G1 = [a; b; c; e] -> shape G2 = [a'; b'; c'; e'] -> e <> a' -> ttm_to_tensor_einsum Op (G1 :: G2 :: rest) = Err.
 Proof.
-  intros H1 H2 Hne He Ha. unfold ttm_to_tensor_einsum. cbn [all_shape4]. unfold shape4. rewrite H1, H2. cbn [rbind].
+  intros H1 H2 Hne. unfold ttm_to_tensor_einsum, validate_ttm. cbn [all_shape4]. unfold shape4. rewrite H1, H2. cbn [rbind].
   destruct (all_shape4 rest) as [ds|]; cbn [rbind]; [|reflexivity].
-  cbn [ein_ok d4e d4a fst snd].
-  destruct (Nat.eqb_spec e a'); [contradiction|]. destruct (Nat.eqb_spec e 1); [contradiction|].
-  destruct (Nat.eqb_spec a' 1); [contradiction|]. reflexivity.
+  cbn [chain_ok4 d4e d4a fst snd].
+  destruct (Nat.eqb_spec a' e); [congruence|]. now rewrite andb_false_r.
 Qed.
 End R.
